@@ -359,6 +359,12 @@ func main() {
 		for i := 0; i < nplain; i++ {
 			g.doc(g.g.Value(1+g.r.Intn(4)), true)
 		}
+		// wide and shallow: more containers in one document than the parser's nesting limit
+		wide := jx.Wide(10001)
+		for _, k := range []string{"sibling-arrays", "sibling-objects", "mixed", "table", "fan-out", "object-of-arrays"} {
+			g.doc(wide[k], k == "table")
+			rep.Count("val:wide:" + k)
+		}
 		for d := 1; d <= 60; d += 1 + d/6 {
 			g.doc(g.g.Deep(d), false)
 		}
